@@ -17,7 +17,7 @@ REQUIRED_COUNTERS = ["inject.conelp.factor", "inject.conelp.solve", "inject.cone
 
 def plan(tier):
     if tier == "thorough":
-        return [{"variant": "plain", "workers": 16, "cases": 120}]
+        return [{"variant": "plain", "workers": 16, "cases": 300}]
     return [{"variant": "plain", "workers": 16, "cases": 8}]
 
 
